@@ -776,6 +776,8 @@ func (g *generator) enterNextFinallyFrame() (canContinue bool, ex *Exception) {
 			break
 		}
 		ex = vm.restoreStacks(tf.iterLen, tf.refLen)
+		// the script code run by the iterators' return() methods may have caused vm.tryStack to be reallocated
+		tf = &vm.tryStack[len(vm.tryStack)-1]
 		if ex != nil {
 			// Closing an iterator has thrown: the exception replaces the return completion and propagates
 			// to the enclosing try statements of the generator. If none of them catches it, handleThrow()
